@@ -8,6 +8,7 @@ import (
 	"errors"
 
 	tracenoop "go.opentelemetry.io/otel/trace/noop"
+	"go.uber.org/zap"
 
 	"go.opentelemetry.io/collector/component"
 	"go.opentelemetry.io/collector/consumer"
@@ -16,9 +17,13 @@ import (
 	"go.opentelemetry.io/collector/receiver"
 	"go.opentelemetry.io/collector/receiver/receiverhelper"
 	"go.opentelemetry.io/collector/scraper"
+	"go.opentelemetry.io/collector/scraper/scrapererror"
 )
 
-type vc19LogsScraper struct{ n int }
+type vc19LogsScraper struct {
+	n   int
+	err error
+}
 
 func (s vc19LogsScraper) Start(context.Context, component.Host) error { return nil }
 func (s vc19LogsScraper) Shutdown(context.Context) error             { return nil }
@@ -28,10 +33,13 @@ func (s vc19LogsScraper) ScrapeLogs(context.Context) (plog.Logs, error) {
 	for i := 0; i < s.n; i++ {
 		lrs.AppendEmpty()
 	}
-	return ld, nil
+	return ld, s.err
 }
 
-type vc19MetricsScraper struct{ n int }
+type vc19MetricsScraper struct {
+	n   int
+	err error
+}
 
 func (s vc19MetricsScraper) Start(context.Context, component.Host) error { return nil }
 func (s vc19MetricsScraper) Shutdown(context.Context) error             { return nil }
@@ -41,14 +49,23 @@ func (s vc19MetricsScraper) ScrapeMetrics(context.Context) (pmetric.Metrics, err
 	for i := 0; i < s.n; i++ {
 		dps.AppendEmpty()
 	}
-	return md, nil
+	return md, s.err
 }
 
-type vc19Sink struct{ err error }
+type vc19Sink struct {
+	err error
+	got *int
+}
 
-func (s vc19Sink) Capabilities() consumer.Capabilities                 { return consumer.Capabilities{} }
-func (s vc19Sink) ConsumeLogs(context.Context, plog.Logs) error         { return s.err }
-func (s vc19Sink) ConsumeMetrics(context.Context, pmetric.Metrics) error { return s.err }
+func (s vc19Sink) Capabilities() consumer.Capabilities { return consumer.Capabilities{} }
+func (s vc19Sink) ConsumeLogs(_ context.Context, ld plog.Logs) error {
+	*s.got += ld.LogRecordCount()
+	return s.err
+}
+func (s vc19Sink) ConsumeMetrics(_ context.Context, md pmetric.Metrics) error {
+	*s.got += md.DataPointCount()
+	return s.err
+}
 
 func vc19Obsrecv(led *vLedger) *receiverhelper.ObsReport {
 	rec, err := receiverhelper.NewObsReport(receiverhelper.ObsReportSettings{
@@ -64,33 +81,129 @@ func vc19Obsrecv(led *vLedger) *receiverhelper.ObsReport {
 
 func VerifC19ScrapeLogs() {
 	led := vNewLedger()
-	n := 1 + vChoice("records", 3)
 	var derr error
 	if vChoice("downstream-fails", 2) == 1 {
 		derr = errors.New("refused downstream")
 	}
-	c := &controller[scraper.Logs]{obsrecv: vc19Obsrecv(led), scrapers: []scraper.Logs{vc19LogsScraper{n: n}}}
-	scrapeLogs(c, vc19Sink{err: derr})
+	// one or two scrapers, each returning its records with nothing, a plain error, or a (wrapped) partial error
+	ns := 1 + vChoice("scrapers", vParam("maxScrapers"))
+	var scs []scraper.Logs
+	want := 0
+	for i := 0; i < ns; i++ {
+		n := 1 + vChoice("records", 3)
+		serr, partial, _ := vc19ScrapeOutcome()
+		if serr == nil || partial {
+			want += n // a scraper that fails outright contributes nothing; partial data is forwarded
+		}
+		scs = append(scs, vc19LogsScraper{n: n, err: serr})
+	}
+	got := 0
+	c := &controller[scraper.Logs]{obsrecv: vc19Obsrecv(led), scrapers: scs}
+	scrapeLogs(c, vc19Sink{err: derr, got: &got})
+	vAssert(got == want, "scrape-logs/consumer-offered-the-records-of-every-usable-scrape")
 	acc, ref := led.sum["otelcol_receiver_accepted_log_records"], led.sum["otelcol_receiver_refused_log_records"]
 	vReach("scraped")
-	vAssert(acc+ref == int64(n), "scrape-logs/accepted-plus-refused-on-log-counters-equals-records-scraped")
-	vAssert((derr == nil) == (ref == 0), "scrape-logs/refused-iff-downstream-failed")
+	if want > 0 {
+		vAssert(acc+ref == int64(want), "scrape-logs/accepted-plus-refused-on-log-counters-equals-records-scraped")
+	}
 	vAssert(led.sum["otelcol_receiver_accepted_metric_points"]+led.sum["otelcol_receiver_refused_metric_points"] == 0, "scrape-logs/nothing-booked-on-metric-point-counters")
+	if want > 0 {
+		vAssert((derr == nil) == (ref == 0), "scrape-logs/refused-iff-downstream-failed")
+	}
 	vReach("end")
 }
 
 func VerifC19ScrapeMetrics() {
 	led := vNewLedger()
-	n := 1 + vChoice("points", 3)
 	var derr error
 	if vChoice("downstream-fails", 2) == 1 {
 		derr = errors.New("refused downstream")
 	}
-	c := &controller[scraper.Metrics]{obsrecv: vc19Obsrecv(led), scrapers: []scraper.Metrics{vc19MetricsScraper{n: n}}}
-	scrapeMetrics(c, vc19Sink{err: derr})
+	ns := 1 + vChoice("scrapers", vParam("maxScrapers"))
+	var scs []scraper.Metrics
+	want := 0
+	for i := 0; i < ns; i++ {
+		n := 1 + vChoice("points", 3)
+		serr, partial, _ := vc19ScrapeOutcome()
+		if serr == nil || partial {
+			want += n
+		}
+		scs = append(scs, vc19MetricsScraper{n: n, err: serr})
+	}
+	got := 0
+	c := &controller[scraper.Metrics]{obsrecv: vc19Obsrecv(led), scrapers: scs}
+	scrapeMetrics(c, vc19Sink{err: derr, got: &got})
+	vAssert(got == want, "scrape-metrics/consumer-offered-the-points-of-every-usable-scrape")
 	acc, ref := led.sum["otelcol_receiver_accepted_metric_points"], led.sum["otelcol_receiver_refused_metric_points"]
-	vAssert(acc+ref == int64(n), "scrape-metrics/accepted-plus-refused-on-metric-counters-equals-points-scraped")
-	vAssert((derr == nil) == (ref == 0), "scrape-metrics/refused-iff-downstream-failed")
+	vAssert(acc+ref == int64(want), "scrape-metrics/accepted-plus-refused-on-metric-counters-equals-points-scraped")
+	if want > 0 {
+		vAssert((derr == nil) == (ref == 0), "scrape-metrics/refused-iff-downstream-failed")
+	}
 	vAssert(led.sum["otelcol_receiver_accepted_log_records"]+led.sum["otelcol_receiver_refused_log_records"] == 0, "scrape-metrics/nothing-booked-on-log-counters")
+	vReach("end")
+}
+
+type vc19Wrap struct{ err error }
+
+func (w vc19Wrap) Error() string { return "scrape of one source failed: " + w.err.Error() }
+func (w vc19Wrap) Unwrap() error { return w.err }
+
+// vc19ScrapeOutcome: what the scraper returns with its n items: nothing, a plain error, a partial
+// scrape error naming f failed items, or the same partial error wrapped by another error.
+func vc19ScrapeOutcome() (err error, partial bool, failed int) {
+	switch vChoice("scrape-outcome", 4) {
+	case 0:
+		return nil, false, 0
+	case 1:
+		return errors.New("scrape failed"), false, 0
+	case 2:
+		failed = 1 + vChoice("failed", 2)
+		return scrapererror.NewPartialScrapeError(errors.New("some failed"), failed), true, failed
+	default:
+		failed = 1 + vChoice("failed", 2)
+		return vc19Wrap{err: scrapererror.NewPartialScrapeError(errors.New("some failed"), failed)}, true, failed
+	}
+}
+
+// VerifC19ScraperObs: the scraper's own counters (scraped / errored, per signal) as booked by the
+// obs wrapper the controller puts around every scraper: a partial scrape error — recognised exactly
+// as scrapererror.IsPartialScrapeError recognises it, so the controller that forwards the partial data
+// and the counters agree — books its failed count as errored and the returned items as scraped; a
+// success books the items as scraped; any other error books nothing.
+func VerifC19ScraperObs() {
+	led := vNewLedger()
+	n := 1 + vChoice("items", 3)
+	serr, partial, failed := vc19ScrapeOutcome()
+	vAssert(scrapererror.IsPartialScrapeError(serr) == partial, "scraper-obs/harness-partial-classification")
+	set := component.TelemetrySettings{Logger: zap.NewNop(), MeterProvider: vLedgerProvider{led: led}, TracerProvider: tracenoop.NewTracerProvider()}
+	wantScraped, wantErrored := int64(0), int64(0)
+	switch {
+	case serr == nil:
+		wantScraped = int64(n)
+	case partial:
+		wantScraped, wantErrored = int64(n), int64(failed)
+	}
+	if vChoice("signal", 2) == 0 {
+		sc, err := wrapObsLogs(vc19LogsScraper{n: n, err: serr}, component.MustNewID("vrecv"), component.MustNewID("vscrape"), set)
+		vAssert(err == nil, "scraper-obs/wrapper-created")
+		ld, rerr := sc.ScrapeLogs(context.Background())
+		vAssert(rerr == serr && ld.LogRecordCount() == n, "scraper-obs/logs/result-passed-through")
+		vAssert(led.sum["otelcol_scraper_scraped_log_records"] == wantScraped, "scraper-obs/logs/scraped-counter")
+		vAssert(led.sum["otelcol_scraper_errored_log_records"] == wantErrored, "scraper-obs/logs/errored-counter")
+		vAssert(led.sum["otelcol_scraper_scraped_metric_points"]+led.sum["otelcol_scraper_errored_metric_points"] == 0, "scraper-obs/logs/nothing-on-metric-counters")
+	} else {
+		sc, err := wrapObsMetrics(vc19MetricsScraper{n: n, err: serr}, component.MustNewID("vrecv"), component.MustNewID("vscrape"), set)
+		vAssert(err == nil, "scraper-obs/wrapper-created")
+		md, rerr := sc.ScrapeMetrics(context.Background())
+		vAssert(rerr == serr && md.DataPointCount() == n, "scraper-obs/metrics/result-passed-through")
+		// the wrapper books md.MetricCount() on the "metric points" counter; the harness payload has one
+		// metric, so only the error classification is asserted here, not the unit of the count
+		if wantScraped > 0 {
+			wantScraped = int64(md.MetricCount())
+		}
+		vAssert(led.sum["otelcol_scraper_scraped_metric_points"] == wantScraped, "scraper-obs/metrics/scraped-counter")
+		vAssert(led.sum["otelcol_scraper_errored_metric_points"] == wantErrored, "scraper-obs/metrics/errored-counter")
+		vAssert(led.sum["otelcol_scraper_scraped_log_records"]+led.sum["otelcol_scraper_errored_log_records"] == 0, "scraper-obs/metrics/nothing-on-log-counters")
+	}
 	vReach("end")
 }
